@@ -11,7 +11,7 @@ RULE = ('streams produced by the independent nondeterministic reference encoder 
         'ending exactly at the symbol boundary; one trailing ASCII codeword; EDIFACT unlatch in each of the four positions and the '
         '<= 2 trailing ASCII codewords rule; Base256 with 1-/2-byte length and running to the end of the symbol), Macro 05/06 and FNC1 '
         'prefixes, padding to a real symbol capacity; every stream is first validated by the independent decoder refdec.py; '
-        'non-trivial = stream with at least one non-ASCII run')
+        'non-trivial = stream with at least one non-ASCII run; plus constructed streams on the decoder\'s constants: Base256 fields of 0,1,2,248..252,499..501,750,1000,1500,1554,1555 bytes with explicit length or running to the end, between ASCII runs')
 THEOREMS = 'C04_scripts, C04_macro05, C04_macro06, C04_fnc1, C04_randomisers, C04_c40_tables'
 ASSUMPTIONS = ['refenc.py / refdec.py are independent readings of ISO/IEC 16022 5.2 (each stream is accepted by both before use)']
 
